@@ -88,8 +88,14 @@ def execute(c):
             b = _gbox(c["base"], c["b"], crs=CRS_B)
         else:
             b = _gbox(c["base"], c["b"], crs=None)
+        # ... also as a LATER member of a list whose first members are compatible with each other: disjoint ones (their running intersection is
+        # already empty when the incompatible operand comes up), nested ones
+        ra = c["a"]
+        a_far = _gbox(c["base"], [ra[0] + 5 * ra[2] + 7, ra[1] - 3 * ra[3] - 4, ra[2], ra[3]])
         ev["o"] = {"a_or_b": _res(lambda: a | b, _enc), "b_and_a": _res(lambda: b & a, _enc), "roi": _res(lambda: a.overlap_roi(b), _roi),
-                   "ulist": _res(lambda: gu([a, b]), _enc), "ilist": _res(lambda: gi([b, a]), _enc)}
+                   "ulist": _res(lambda: gu([a, b]), _enc), "ilist": _res(lambda: gi([b, a]), _enc),
+                   "ilist3_after_disjoint": _res(lambda: gi([a, a_far, b]), _enc), "ulist3_after_disjoint": _res(lambda: gu([a, a_far, b]), _enc),
+                   "ilist3_after_same": _res(lambda: gi([a, a, b]), _enc)}
         # nothing to combine is an error, one operand combines to itself
         for fn in (gu, gi):
             try:
